@@ -105,17 +105,23 @@ MapPut(m, k, v) == IF m = << >> THEN << <<k, v>> >>
                    ELSE IF Less(k, Head(m)[1]) THEN << <<k, v>> >> \o m
                    ELSE <<Head(m)>> \o MapPut(Tail(m), k, v)
 
+\* Model bound: ints stay within +-10^6 (TLC integers are 32-bit); a program that
+\* leaves the range gets the outcome "fuel" and is not used.
+Big(n) == n > 1000000 \/ n < -1000000
+Bounded(n) == IF Big(n) THEN O("fuel", Null) ELSE Val(IntV(n))
 BinOp(op, a, b) ==
-  CASE op = "+" -> IF a.k = "int" /\ b.k = "int" THEN Val(IntV(a.n + b.n))
+  CASE op = "+" -> IF a.k = "int" /\ b.k = "int" THEN Bounded(a.n + b.n)
                    ELSE IF a.k = "list" /\ b.k = "list" THEN Val(ListV(a.s \o b.s))
                    ELSE IF a.k = "list" /\ b.k \notin {"set", "null"} THEN Val(ListV(Append(a.s, b)))
                    ELSE IF a.k = "str" /\ b.k = "str" THEN Val(StrV(a.s \o b.s))
                    ELSE IF a.k = "null" \/ b.k = "null" THEN Val(Null)
                    ELSE RErr
-    [] op = "-" -> IF a.k = "int" /\ b.k = "int" THEN Val(IntV(a.n - b.n))
+    [] op = "-" -> IF a.k = "int" /\ b.k = "int" THEN Bounded(a.n - b.n)
                    ELSE IF a.k = "list" THEN RErr       \* not used by the generators
                    ELSE IF a.k = "null" \/ b.k = "null" THEN Val(Null) ELSE RErr
-    [] op = "*" -> IF a.k = "int" /\ b.k = "int" THEN Val(IntV(a.n * b.n))
+    [] op = "*" -> IF a.k = "int" /\ b.k = "int"
+                   THEN (IF a.n > 30000 \/ a.n < -30000 \/ b.n > 30000 \/ b.n < -30000
+                         THEN O("fuel", Null) ELSE Bounded(a.n * b.n))
                    ELSE IF a.k = "null" \/ b.k = "null" THEN Val(Null) ELSE RErr
     [] op = "/" -> IF a.k = "int" /\ b.k = "int"
                    THEN (IF b.n = 0 THEN RErr
